@@ -34,6 +34,9 @@ func (in *Interp) materializeBlob(s *SliceVal) {
 }
 
 func (in *Interp) blobLen(s SliceVal) int {
+	if m, ok := s.Ext.(*sigMarker); ok {
+		return 1 + 2*len(m.signers) + m.nExtra
+	}
 	// an encoding is never empty; the exact length is not modelled
 	return 2
 }
